@@ -555,32 +555,50 @@ class C04(Prop):
     thorough_n = 3000
     search_n = 600
     design_ref = "5/C04"
-    technique = "Lean 4 proof (limits machine + size decisions) + translator-generated constants + model/implementation correspondence"
-    level_text = ("Lean 4 theorems about an executable model of the limits machine (eval_cost tick, control-stack depth tests, "
-                  "checked pushes, error_state bits, do_catch re-raise, pop_context, safe_apply, the master's error handler) for all "
-                  "program shapes, catch nestings, configurations and fuels, and about the size decision of every array / buffer / "
-                  "mapping / string constructor for all operand sizes and int64 arguments; tied to the source by regenerated "
-                  "constants and by running generated LPC programs and constructor calls on the real driver under small limits; "
-                  "the Lean oracle judges every implementation trace (no limit error swallowed, evaluation ended and unwound, "
-                  "instruction / depth / stack / size bounds on the measured numbers)")
-    level_note = ("trusted: Lean kernel; extract.py; props/c04.py as the translator from a shape term to LPC source; the "
-                  "correspondence harness (differential, generated cases only; instruction counts are bounded by the oracle, not "
-                  "predicted by the model); the master's error handler is modelled only by its effect on error_state")
-    rule = ("cases = corpus + known-finding inputs + boundary list + seeded random cases, alternating (a) a random shape tree "
-            "(work loops of 4 forms, spin loops of 4 forms, unbounded recursion direct/mutual/function-pointer/efun-callback with "
-            "0..20 locals, recursion through catch, calls, catch frames, map/filter callbacks, safe applies via sprintf(%O), "
-            "error, throw, sort_array callbacks to a missing function) under MaxEvaluationCost 2000..8000 (1 in 12 a value the driver clamps, set through init_config or set_eval_limit), MaxCallDepth 16..60, StackSize 150..1000, master handler with/without "
-            "catch, and (b) 3..8 constructor calls with arguments around the limit, 0, negative, 2^31, 2^32+k, 2^62, INT64 "
-            "extremes under MaxArraySize/MaxBufferSize/MaxMappingSize/MaxStringLength 10..1000 (1 in 8 with limits around 65536); "
-            "and (c) 1 in 8 a sequence of inserts and in-place `m += m2` on one mapping around MaxMappingSize, each inside catch; the quantifier of the property is covered as: loops of 4 forms, direct / mutual / function-pointer / callback / catch recursion, doubling concatenation (join_self), every limit named; the histogram in the evidence lists every branch of the model's machine and every constructor with its ok/err counts (all branches are taken in the quick tier); a case is non-trivial when its trace has >= 2 lines; distinct = distinct canonical implementation trace")
-    not_covered = ["mapping * mapping (compose_mapping: keeps a subset of the left operand's keys) and the efuns marked NOT ANALYSED on the exclusion list of props/c04.py (save_variable, restore_variable, regexp, reg_assoc)",
-                   "work done inside one efun call that makes no callback (e.g. hashing, copying) is bounded by the size limits, not by the evaluation cost",
-                   "instructions the master's error handler executes after a limit error (it runs on a refreshed budget; bounded by an allowance in the oracle, not modelled)",
+    technique = ("Lean 4 proof (limits machine, interpreter-loop charge machine, size decisions, depth-limited value walks, mapping count "
+                 "bookkeeping; top theorems: the oracle applied to every model run is empty) + translator-generated constants, guard sites and "
+                 "opcode lists + model/implementation correspondence")
+    level_text = ("Lean 4 theorems about executable models of the C code, for all inputs: (1) the limits machine (eval_cost tick, "
+                  "control-stack depth tests, checked pushes, error_state bits, do_catch re-raise, pop_context, safe_apply, the master's "
+                  "error handler by its effect on error_state) for all program shapes, catch nestings, configurations and fuels - "
+                  "model_satisfies_spec: every clause the oracle applies to one evaluation (no limit error swallowed, instructions <= "
+                  "budget + allowance, depth, stack incl. slots written between fetches, both stacks unwound, nothing completes after an "
+                  "expiry) is empty on every model run; (2) a byte-code level machine of eval_instruction's loop: backward jumps + calls + "
+                  "callbacks <= ticks <= budget for every program and branch oracle, with the charge of a fetch built from facts regenerated "
+                  "from src/interpret.c (test before the dispatch, no goto, list of backward-branch opcodes); (3) the size decision of every "
+                  "array / buffer / mapping / string constructor incl. mapping * mapping, save_variable / restore_variable, regexp, "
+                  "reg_assoc for all operand sizes and int64 arguments - szCmd_satisfies_spec: the size clause never fires on the model's "
+                  "answer to any constructor command; (4) the depth-limited value walks (svalue_save_size, copy) for every value; "
+                  "(5) mapping count = nodes across inserts, partially applied `+=` and in-place `*=`.  Tied to the source by regenerated "
+                  "constants, 54 guard sites, the opcode lists, and by running generated LPC programs and constructor calls on the real "
+                  "driver under small limits; the Lean oracle judges every implementation trace")
+    level_note = ("trusted: Lean kernel; extract.py; props/c04.py as the translator from a shape term to LPC source and as the "
+                  "(regex / brace-matching) reader of the guard sites and of eval_instruction's switch; the correspondence harness "
+                  "(differential, generated cases only; instruction counts are bounded by the oracle, not predicted by the model); the "
+                  "master's error handler is modelled only by its effect on error_state (its instructions are bounded by an allowance "
+                  "of 100 per invocation in the oracle, side condition of model_satisfies_spec)")
+    rule = ("cases = corpus + fixed-finding inputs + boundary list + seeded random cases, alternating (a) a random shape tree "
+            "(work loops of 4 forms, spin loops of 12 forms - one per backward-branch opcode of eval_instruction, measured on every run "
+            "through the opcode histogram hook: a loop through each opcode must have been stopped by the budget -, unbounded recursion "
+            "direct / mutual / function-pointer / efun-callback / callback with 8 extra arguments with 0..20 locals, recursion through "
+            "catch, calls, catch frames, map/filter callbacks, safe applies via sprintf(%O), error, throw, sort_array callbacks to a "
+            "missing function) under MaxEvaluationCost 2000..8000 (1 in 12 a value the driver clamps, set through init_config or "
+            "set_eval_limit), MaxCallDepth 16..60, StackSize 150..1000, master handler plain / with catch / with catch and then an "
+            "error of its own, and (b) 3..8 constructor calls (49 constructors) with arguments around the limit, 0, negative, 2^31, "
+            "2^32+k, 2^62, INT64 extremes under MaxArraySize/MaxBufferSize/MaxMappingSize/MaxStringLength 10..1000 (1 in 8 with limits "
+            "around 65536); and (c) 1 in 8 a sequence of inserts, in-place `m += m2` and in-place `m *= m2` on one mapping around "
+            "MaxMappingSize, each inside catch; the histogram in the evidence lists every branch of the model's machine, every "
+            "constructor with its ok/err counts and the loop opcodes executed in budget-stopped runs; a case is non-trivial when its "
+            "trace has >= 2 lines; distinct = distinct canonical implementation trace")
+    not_covered = ["work done inside one efun call that makes no callback (hashing, copying, `%*s` padding, unique_array's group search) is bounded by the size limits, not by the evaluation cost",
+                   "instructions the master's error handler executes after a limit error (it runs on a refreshed budget; bounded by an allowance in the oracle, not modelled); in_error nesting beyond the two repaired paths",
+                   "C recursion depth of walks that have no limit of their own: sprintf(\"%O\") through nested function-pointer arguments, free_svalue / restore_variable on values nested tens of thousands deep (observations in notes/C04.md: stack overflow of the driver reachable with the default budget; C01 material)",
                    "wall-clock time and memory of a single efun call",
-                   "unchecked value-stack pushes (argument pushes, merge_arg_lists): confirmed defect that belongs to C01",
-                   "efuns excluded from the size decisions: see EFUN_EXCLUDED in props/c04.py (each with its reason; the check fails when an efun returning a sized value is in neither table)",
-                   "set_eval_limit(): a privileged efun that resets the budget by design"]
-    trusted = ["props/c04.py: shape term -> LPC source translator", "literal slack of 5 in reset_interpreter (src/stack.c) copied into the model"]
+                   "unchecked value-stack pushes by the interpreter itself (F_PUSH, argument pushes, merge_arg_lists): confirmed defect that belongs to C01; the slots above StackSize are watched for the generated programs only",
+                   "efuns excluded from the size decisions: see EFUN_EXCLUDED in props/c04.py (each with its reason; the check fails when an efun returning a sized value is in neither table); classes rebuilt by restore_variable are not limited by MaxArraySize",
+                   "set_eval_limit(0): a privileged efun that resets the running budget by design",
+                   "the real backend loop (eval_cost reset before each task is located as a site, the harness makes the same assignment)"]
+    trusted = ["props/c04.py: shape term -> LPC source translator", "props/c04.py: gen_loop (reader of eval_instruction's loop and switch)"]
 
     def prepare(self, ctx):
         if not getattr(self, "loop_info", None):      # (gen_extra did not get that far: the tie is already reported)
